@@ -126,12 +126,16 @@ def config_settings(name, rng=None):
         return pya.default_settings()
     if name == "all-off":
         return dict(ALL_OFF)
-    st = {c: rng.random() < 0.5 for c in ErrorCode}
-    st[ErrorCode.internal_error] = True   # keeps the search sensitive; `all-off` covers the disabled case
-    return st
+    # a handful of random subsets per run (each needs its own Checker, ~0.1 s to build)
+    if not _RANDOM_CONFIGS or _RANDOM_CONFIGS[0] is not rng:
+        _RANDOM_CONFIGS[:] = [rng] + [{c: rng.random() < 0.5 for c in ErrorCode} for _ in range(5)]
+        for st in _RANDOM_CONFIGS[1:]:
+            st[ErrorCode.internal_error] = True   # keeps the search sensitive; `all-off` covers the disabled case
+    return dict(rng.choice(_RANDOM_CONFIGS[1:]))
 
 
 _KW = {}
+_RANDOM_CONFIGS = []
 
 
 def kwargs_for(settings, fresh=False):
@@ -185,6 +189,11 @@ def signature_of(description):
     inner = [(f.split("/")[-1], fn) for f, fn in frames if "/pyanalyze/" in f]
     if m is None:
         return ("no-traceback", re.sub(r"[^A-Za-z ]+.*", "", last)[:40].strip())
+    if m.group(1) == "RecursionError":
+        # the frame in which the limit is hit depends on the depth the check was started from: name the cycle instead
+        names = [fn for _, fn in inner]
+        cyc = sorted({n for n in names if names.count(n) >= 8})
+        return ("RecursionError", "cycle:" + ",".join(cyc)[:160])
     return (m.group(1), "%s::%s" % inner[-1] if inner else "?")
 
 
@@ -211,7 +220,8 @@ def run_check(src, settings, fresh=False, record=False, cpu=30):
     except BaseException as e:
         tb = traceback.extract_tb(e.__traceback__)
         inner = [(f.filename.split("/")[-1], f.name) for f in tb if "/pyanalyze/" in f.filename]
-        problems.append(("raises", (type(e).__name__, "%s::%s" % inner[-1] if inner else "?"), {"exception": repr(e)[:300]}))
+        problems.append(("raises", (type(e).__name__, "%s::%s" % inner[-1] if inner else "?"),
+                         {"exception": repr(e)[:300], "description": "".join(traceback.format_tb(e.__traceback__))}))
         res = []
     finally:
         unload(mod)
@@ -232,7 +242,8 @@ def diagnostics_oracle(src, res):
         ln, col = f.get("lineno"), f.get("col_offset")
         where = {"code": cname, "lineno": ln, "col": col}
         if cname == "internal_error":
-            out.append(("internal_error", signature_of(f.get("description", "")), dict(where, tail=pya.norm(f.get("description", "")).strip().split("\n")[-1][:200])))
+            out.append(("internal_error", signature_of(f.get("description", "")), dict(where, tail=pya.norm(f.get("description", "")).strip().split("\n")[-1][:200],
+                                                                                             description=f.get("description", ""))))
             continue   # its position is reported as part of the same defect
         if cname is None or cname not in REGISTRY:
             out.append(("no-code", ("no-code", (f.get("description") or "")[:40]), where))
@@ -371,3 +382,1116 @@ def fails_with(signature, settings):
             return False
         return any(sig == signature for _, sig, _ in r["problems"])
     return test
+
+
+# =================================================================== translator: tables regenerated from the live tree
+def _lean_str(s):
+    out = ['"']
+    for ch in s:
+        if ch == "\\":
+            out.append("\\\\")
+        elif ch == '"':
+            out.append('\\"')
+        elif ch == "\n":
+            out.append("\\n")
+        elif ch == "\t":
+            out.append("\\t")
+        elif ord(ch) < 32 or ord(ch) == 127:
+            out.append("\\x%02x" % ord(ch))
+        else:
+            out.append(ch)
+    out.append('"')
+    return "".join(out)
+
+
+def visitor_methods():
+    from pyanalyze import annotations
+    return sorted(n[len("visit_"):] for n in dir(annotations._Visitor) if n.startswith("visit_"))
+
+
+def translate(ctx):
+    """Generated/TotalTables.lean: the error-code registry (name, description), the node kinds `annotations._Visitor`
+    has a visit_ method for, BaseNodeVisitor.CONTEXT_LINES."""
+    from pyanalyze import node_visitor
+    codes = [(e.name, e.description) for e in ErrorCode]
+    if not codes or len({n for n, _ in codes}) != len(codes):
+        raise ValueError("ErrorCode registry is empty or has duplicate names")
+    meths = visitor_methods()
+    if "generic_visit" in meths or not meths:
+        raise ValueError("annotations._Visitor: unexpected visit_ methods %r" % meths)
+    text = (
+        "/-! Regenerated by harness/props/c12.py `translate` from the live pyanalyze; do not edit. -/\n"
+        "namespace Pya.C12.Gen\n\n"
+        "/-- `pyanalyze.error_code.ErrorCode`: (name, description) in registration order -/\n"
+        "def errorCodes : List (String × String) := [\n  %s]\n\n"
+        "/-- node kinds `X` for which `pyanalyze.annotations._Visitor` defines `visit_X` -/\n"
+        "def visitorMethods : List String := [%s]\n\n"
+        "/-- `BaseNodeVisitor.CONTEXT_LINES` -/\n"
+        "def contextLines : Nat := %d\n\n"
+        "end Pya.C12.Gen\n"
+    ) % (",\n  ".join("(%s, %s)" % (_lean_str(n), _lean_str(d)) for n, d in codes), ", ".join(_lean_str(m) for m in meths),
+         int(node_visitor.BaseNodeVisitor.CONTEXT_LINES))
+    lean.write_if_changed(os.path.join(lean.LEAN, "PyaModel", "Generated", "TotalTables.lean"), text)
+    from harness.common import values as V
+    tb, changed = V.regenerate_class_table()
+    if ctx is not None:
+        ctx.extra["tables_regenerated"] = {"error_codes": len(codes), "visitor_methods": meths, "class_table_changed_on_disk": changed}
+
+
+# =================================================================== annotation expressions -> AExpr (Lean model input)
+SUPPORTED_SHAPES = {"Name", "Constant", "Attribute", "Subscript", "Tuple", "List", "Set", "Dict", "BinOp", "UnaryOp", "Call"}
+
+
+def _ctor_of(node, ns):
+    """Which of the callees visit_Call treats specially a Name / dotted name evaluates to (ns = namespace the
+    annotation context resolves names in)."""
+    import typing
+    n = node
+    while isinstance(n, ast.Attribute):
+        n = n.value
+    if not isinstance(n, ast.Name) or ns is None:
+        return "-"
+    try:
+        obj = eval(compile(ast.Expression(body=node), "<ann>", "eval"), dict(ns))
+    except Exception:
+        return "-"
+    try:
+        import typing_extensions as te
+    except ImportError:  # pragma: no cover
+        te = typing
+    if obj is typing.NewType or obj is getattr(te, "NewType", None):
+        return "nt"
+    if obj is typing.TypeVar or obj is getattr(te, "TypeVar", None):
+        return "tv"
+    if obj is typing.ParamSpec or obj is getattr(te, "ParamSpec", None):
+        return "ps"
+    if obj is getattr(te, "deprecated", None) or obj is getattr(__import__("warnings"), "deprecated", None):
+        return "dep"
+    return "-"
+
+
+def aexpr_sexp(node, ns=None):
+    """s-expression of an annotation AST for the Lean driver (`toAExpr`)."""
+    r = lambda n: aexpr_sexp(n, ns)
+    if isinstance(node, ast.Name):
+        return "(name %s)" % _ctor_of(node, ns)
+    if isinstance(node, ast.Constant):
+        return "const"
+    if isinstance(node, ast.Attribute):
+        return "(attr %s %s)" % (r(node.value), _ctor_of(node, ns))
+    if isinstance(node, ast.Subscript):
+        return "(sub %s %s)" % (r(node.value), r(node.slice))
+    if isinstance(node, (ast.Tuple, ast.List, ast.Set)):
+        return "(%s%s)" % (type(node).__name__.lower(), "".join(" " + r(e) for e in node.elts))
+    if isinstance(node, ast.Dict):
+        return "(dict (%s) (%s))" % (" ".join(r(k) for k in node.keys if k is not None), " ".join(r(v) for v in node.values))
+    if isinstance(node, ast.BinOp):
+        return "(binop %d %s %s)" % (isinstance(node.op, ast.BitOr), r(node.left), r(node.right))
+    if isinstance(node, ast.UnaryOp):
+        return "(unary %d %s)" % (isinstance(node.op, ast.USub), r(node.operand))
+    if isinstance(node, ast.Call):
+        return "(call %s (%s) (%s))" % (r(node.func), " ".join(r(a) for a in node.args), " ".join(r(k.value) for k in node.keywords))
+    return "(other %s)" % type(node).__name__
+
+
+def annotation_exprs(nodes):
+    """Annotation expressions found under the given AST nodes (parameter / return / variable annotations), plus the
+    parsed content of every string constant inside them (forward references)."""
+    out = []
+    for top in nodes:
+        for n in ast.walk(top):
+            anns = []
+            if isinstance(n, ast.arg) and n.annotation is not None:
+                anns.append(n.annotation)
+            if isinstance(n, (ast.FunctionDef, ast.AsyncFunctionDef)) and n.returns is not None:
+                anns.append(n.returns)
+            if isinstance(n, ast.AnnAssign):
+                anns.append(n.annotation)
+            for a in anns:
+                todo, depth = [a], 0
+                while todo and depth < 5:          # a quoted annotation may itself contain quoted annotations
+                    nxt = []
+                    for x in todo:
+                        out.append(x)
+                        for c in ast.walk(x):
+                            if isinstance(c, ast.Constant) and isinstance(c.value, str):
+                                try:
+                                    nxt.append(ast.parse(c.value, mode="eval").body)
+                                except SyntaxError:
+                                    pass
+                    todo, depth = nxt, depth + 1
+    return out
+
+
+# =================================================================== known classes of the program search
+def nodes_at(tree, ln, col):
+    return [n for n in ast.walk(tree) if getattr(n, "lineno", None) == ln and getattr(n, "col_offset", None) == col]
+
+
+def header_nodes(node):
+    """The node without the statement lists nested in it (errors inside those are caught at the inner statement)."""
+    if not isinstance(node, (ast.stmt, ast.ExceptHandler, ast.match_case)):
+        return [node]
+    out = []
+    if isinstance(node, ast.Match):      # patterns and guards are evaluated by visit_Match itself
+        for c in node.cases:
+            out.append(c.pattern)
+            if c.guard is not None:
+                out.append(c.guard)
+    for field, val in ast.iter_fields(node):
+        if field in ("body", "orelse", "finalbody", "handlers", "cases") and isinstance(val, list):
+            continue
+        if isinstance(val, list):
+            out += [v for v in val if isinstance(v, ast.AST)]
+        elif isinstance(val, ast.AST):
+            out.append(val)
+    return out or [node]
+
+
+def _under(tree, ln, col):
+    """AST nodes the diagnostic at (ln, col) can stem from: the subtrees of the nodes at that position, statement
+    bodies excluded."""
+    out = []
+    for n in nodes_at(tree, ln, col):
+        for h in header_nodes(n):
+            out += list(ast.walk(h))
+        out.append(n)
+    return out
+
+
+def _in_function(tree, target):
+    parents = {}
+    for p in ast.walk(tree):
+        for c in ast.iter_child_nodes(p):
+            parents[c] = p
+    n = target
+    while n in parents:
+        n = parents[n]
+        if isinstance(n, (ast.FunctionDef, ast.AsyncFunctionDef, ast.Lambda)):
+            return True
+    return False
+
+
+def _int_const(n):
+    if isinstance(n, ast.UnaryOp) and isinstance(n.op, (ast.USub, ast.UAdd)):
+        return _int_const(n.operand)
+    return n.value if isinstance(n, ast.Constant) and type(n.value) is int else None
+
+
+PINNED_VISITOR_KINDS = {"Attribute", "BinOp", "Call", "Constant", "Dict", "Expr", "List", "Name", "Set", "Subscript", "Tuple", "UnaryOp"}  # = Spec/Total.lean pinnedSup
+
+
+def _p_annot_kind(tree, ln, col, det, ctxd):
+    m = re.search(r"no visitor implemented for <ast\.(\w+) ", det.get("tail", ""))
+    kind = m.group(1) if m else None
+    if kind in PINNED_VISITOR_KINDS:
+        return False      # a kind the pinned visitor handles: not this class
+    has = lambda anns: [a for a in anns if kind is not None and any(type(c).__name__ == kind for c in ast.walk(a))]
+    hits = has(annotation_exprs(nodes_at(tree, ln, col))) or has(annotation_exprs([tree]))
+    ctxd["annots"] = hits[:3]
+    return bool(hits)
+
+
+def _p_annot_call(tree, ln, col, det, ctxd):
+    anns = annotation_exprs(nodes_at(tree, ln, col)) + annotation_exprs([tree])
+    for a in anns:
+        for c in ast.walk(a):
+            if isinstance(c, ast.Call):
+                f = c.func
+                nm = f.id if isinstance(f, ast.Name) else f.attr if isinstance(f, ast.Attribute) else None
+                if nm in ("NewType", "TypeVar", "ParamSpec", "deprecated"):
+                    return True
+    return False
+
+
+def _p_string_position(tree, ln, col, det, ctxd):
+    for a in annotation_exprs([tree]):
+        pass
+    for n in ast.walk(tree):
+        if isinstance(n, ast.Constant) and isinstance(n.value, str):
+            try:
+                inner = ast.parse(n.value, mode="eval")
+            except SyntaxError:
+                continue
+            if any(getattr(c, "lineno", None) == ln and getattr(c, "col_offset", None) == col for c in ast.walk(inner)):
+                return True
+    return False
+
+
+def _p_huge_power(tree, ln, col, det, ctxd):
+    for n in ast.walk(tree):
+        if isinstance(n, ast.BinOp) and isinstance(n.op, (ast.Pow, ast.LShift)):
+            r = _int_const(n.right)
+            if r is not None and abs(r) >= 10 ** 4:
+                return True
+    return False
+
+
+def _user_frames(det):
+    return bool(re.search(r'File "c12mod_\d+\.py"', det.get("description", "")))
+
+
+KNOWN_CLASSES = [
+    # (class, kinds, signature test, syntactic predicate on (tree, lineno, col, detail, ctx))
+    ("userCodeRaises", ("internal_error", "raises"), lambda s, d: _user_frames(d), lambda *a: True),
+    ("unsupportedAnnotNode", ("internal_error",), lambda s, d: s == ("NotImplementedError", "annotations.py::generic_visit"), _p_annot_kind),
+    ("annotCtorCall", ("internal_error",), lambda s, d: s[1] == "annotations.py::visit_Call", _p_annot_call),
+    ("matchValueNotLiteral", ("internal_error",), lambda s, d: s == ("no-traceback", "Match value is not a literal"),
+     lambda t, ln, col, d, c: any(isinstance(n, ast.MatchValue) for n in nodes_at(t, ln, col))),
+    ("whileOutsideFunction", ("internal_error",), lambda s, d: s == ("TypeError", "name_check_visitor.py::visit_While"),
+     lambda t, ln, col, d, c: any(isinstance(n, ast.While) and not _in_function(t, n) for n in nodes_at(t, ln, col))),
+    ("classKeywordImplicitAny", ("internal_error",), lambda s, d: s == ("AttributeError", "name_check_visitor.py::visit"),
+     lambda t, ln, col, d, c: c.get("implicit_any", False) and any(isinstance(n, ast.ClassDef) and n.keywords for n in nodes_at(t, ln, col))),
+    ("sliceLiteralBounds", ("internal_error",), lambda s, d: s in (("TypeError", "implementation.py::inner"), ("ValueError", "implementation.py::inner")),
+     lambda t, ln, col, d, c: any(isinstance(n, ast.Subscript) and isinstance(n.slice, ast.Slice) and (n.slice.lower or n.slice.upper or n.slice.step)
+                                  for n in _under(t, ln, col))),
+    ("overloadStarArgs", ("internal_error",), lambda s, d: s == ("AssertionError", "signature.py::check_call_with_bound_args"),
+     lambda t, ln, col, d, c: any(isinstance(n, ast.Call) and (any(isinstance(a, ast.Starred) for a in n.args) or any(k.arg is None for k in n.keywords))
+                                  for n in _under(t, ln, col))),
+    ("overloadDetailEllipsis", ("internal_error",), lambda s, d: s == ("AttributeError", "value.py::display"),
+     lambda t, ln, col, d, c: bool(nodes_at(t, ln, col))),
+    ("metaclassAttrRecursion", ("internal_error",), lambda s, d: s[0] == "RecursionError" and "has_attribute" in s[1],
+     lambda t, ln, col, d, c: any(isinstance(n, ast.Attribute) and ((isinstance(n.value, ast.Attribute) and n.value.attr == "__class__") or
+                                                                     (isinstance(n.value, ast.Call) and isinstance(n.value.func, ast.Name) and n.value.func.id == "type"))
+                                  for n in _under(t, ln, col))),
+    ("suggestedTypeOfMetaclass", ("internal_error",), lambda s, d: s == ("TypeError", "suggested_type.py::get_shared_type"),
+     lambda t, ln, col, d, c: any(isinstance(n, ast.Name) and n.id == "type" and isinstance(n.ctx, ast.Load) for n in ast.walk(t))),
+    ("stringAnnotationPosition", ("bad-col", "bad-line"), lambda s, d: True, _p_string_position),
+    ("hugeConstantPower", ("timeout",), lambda s, d: True, _p_huge_power),
+]
+
+
+def classify(src, kind, sig, det, settings):
+    """(class name or None, conforms, aux) for one problem of the program search."""
+    try:
+        tree = ast.parse(src)
+    except SyntaxError:
+        return None, True, {}
+    ln, col = det.get("lineno"), det.get("col")
+    ctxd = {"implicit_any": bool(settings.get(ErrorCode.implicit_any, False))}
+    for name, kinds, sigtest, pred in KNOWN_CLASSES:
+        if kind not in kinds:
+            continue
+        try:
+            if sigtest(sig, det) and pred(tree, ln, col, det, ctxd):
+                return name, True, ctxd
+        except Exception:
+            continue
+    return None, True, ctxd
+
+
+# =================================================================== (3) emit model: protocol + streams
+def str_hash(s):
+    h = 7
+    for ch in s:
+        h = (h * 131 + ord(ch)) % 1000000007
+    return h
+
+
+def enc_text(s):
+    if s is None:
+        return "-"
+    if s == "":
+        return "+"
+    return ".".join(str(ord(c)) for c in s)
+
+
+def enc_line(l):
+    return ".".join(str(ord(c)) for c in l) if l else "-"
+
+
+def encode_calls(rec):
+    """Recorded show_error calls -> protocol tokens; None if a call is outside the protocol."""
+    ids, out = {}, []
+    for cap, node, code, e, obey, save, detail, ic in rec:
+        if ic is not None and ic != "# static analysis: ignore":
+            return None
+        if node is None:
+            nk = "-"
+        elif type(node).__name__ == "_FakeNode":
+            nk = "f%d.%d" % (node.lineno, node.col_offset)
+        else:
+            nk = "n%d" % ids.setdefault(id(node), len(ids))
+        has_pos = bool(node) and hasattr(node, "lineno") and hasattr(node, "col_offset")
+        cname = getattr(code, "name", None) if code is not None else None
+        if code is not None and (cname is None or "," in cname or " " in cname):
+            return None
+        out.append(",".join([str(int(cap)), nk, cname or "-", enc_text(None if e is None else str(e)),
+                             enc_text(None if detail is None else str(detail)),
+                             str(node.lineno) if has_pos else "-", str(node.col_offset) if has_pos else "-",
+                             str(int(obey)), str(int(save))]))
+    return out
+
+
+def emit_line(fname, off, lines, calls):
+    return "E|%s|%s|%s|%s" % (fname, ",".join(sorted(off)) or "-", " ".join(enc_line(l) for l in lines), " ".join(calls))
+
+
+def impl_failures(res, lines):
+    """Real failure dicts in the driver's output format (with the harness oracle's well-formedness bit)."""
+    out = []
+    for f in res:
+        code = getattr(f.get("code"), "name", None)
+        ln, col = f.get("lineno"), f.get("col_offset")
+        pos = "-" if ln is None and col is None else "%s.%s" % ("-" if ln is None else ln, "-" if col is None else col)
+        wf = (code in REGISTRY and isinstance(ln, int) and isinstance(col, int) and 1 <= ln <= len(lines)
+              and 0 <= col <= len(lines[ln - 1]) and bool(f.get("description")) and bool(f.get("message")))
+        out.append("%s@%s:%d:%d:%d" % (code or "-", pos, str_hash(f.get("description", "")), str_hash(f.get("message", "")), int(wf)))
+    return ";".join(out) if out else "-"
+
+
+LINE_KINDS = ["x = 1", "", "# static analysis: ignore", "# static analysis: ignore[undefined_name]", "y = foo  # static analysis: ignore",
+              "z = bar  # static analysis: ignore[undefined_name]", "    indented = 2", "# comment", "w = 'é'", "pass"]
+UNIT_CODES = ["undefined_name", "incompatible_call", "internal_error", "unused_ignore", None]
+
+
+class _Node:
+    """Stand-in for an AST node handed to show_error (anything with lineno / col_offset attributes works)."""
+    def __init__(self, lineno=None, col_offset=None):
+        if lineno is not None:
+            self.lineno = lineno
+        if col_offset is not None:
+            self.col_offset = col_offset
+
+
+def gen_unit_case(rng, nodes):
+    lines = [rng.choice(LINE_KINDS) for _ in range(rng.randint(1, 6))]
+    off = [c for c in ("undefined_name", "unused_ignore", "bare_ignore") if rng.random() < 0.25]
+    calls = []
+    for _ in range(rng.randint(1, 5)):
+        r = rng.random()
+        if r < 0.08:
+            node = None
+        elif r < 0.14:
+            node = _Node(rng.randint(1, len(lines)))            # no col_offset
+        elif r < 0.22:
+            node = _Node(rng.randint(0, len(lines) + 2), rng.randint(0, 30))   # possibly outside the file
+        else:
+            ln = rng.randint(1, len(lines))
+            node = _Node(ln, rng.randint(0, len(lines[ln - 1]) + (2 if rng.random() < 0.1 else 0)))
+        if nodes and rng.random() < 0.15:
+            node = rng.choice(nodes)
+        nodes.append(node)
+        code = rng.choice(UNIT_CODES)
+        e = rng.choice([None, None, "msg", "", "two\nlines", "ünï"])
+        calls.append(dict(node=node, code=code, e=e, detail=rng.choice([None, None, "more", ""]),
+                          obey=rng.random() < 0.85, save=rng.random() < 0.9))
+    return lines, off, calls
+
+
+def run_unit_case(lines, off, calls):
+    """Feed synthetic show_error calls to a real NameCheckVisitor over the given file. Returns (outcome, recorded)."""
+    Rec = _rec_class()
+    src = "\n".join(lines) + "\n"
+    st = dict(ALL_ON)
+    for c in off:
+        st[getattr(ErrorCode, c)] = False
+    kw = kwargs_for(st)
+    v = Rec("unit.py", src, ast.parse("pass"), module=types.ModuleType("unit"), **kw)
+    v._rec = []
+    try:
+        with contextlib.redirect_stderr(io.StringIO()):
+            for c in calls:
+                code = None if c["code"] is None else getattr(ErrorCode, c["code"])
+                v.show_error(c["node"], c["e"], code, detail=c["detail"], obey_ignore=c["obey"], save=c["save"])
+            v.show_errors_for_unused_ignores(ErrorCode.unused_ignore)
+            v.show_errors_for_bare_ignores(ErrorCode.bare_ignore)
+    except (IndexError, AssertionError) as e:
+        return "EXC", v._rec
+    return impl_failures(v.all_failures, lines), v._rec
+
+
+def emit_unit_stream(ctx, with_model=True):
+    rng = ctx.rng
+    cases, lines_out = [], []
+    for _ in range(ctx.n(400, 6000)):
+        nodes = []
+        lines, off, calls = gen_unit_case(rng, nodes)
+        impl, rec = run_unit_case(lines, off, calls)
+        toks = encode_calls(rec)
+        if toks is None:
+            continue
+        cases.append((lines, off, calls, impl))
+        lines_out.append(emit_line("unit.py", off, lines, toks))
+    outs = lean.run_driver("C12", lines_out) if with_model and lines_out else [None] * len(cases)
+    for (lines, off, calls, impl), mo, ln in zip(cases, outs, lines_out):
+        ctx.count(1, emit_unit=1)
+        case = {"stream": "emit", "lines": lines, "off": off,
+                "calls": [dict(c, node=None if c["node"] is None else [getattr(c["node"], "lineno", None), getattr(c["node"], "col_offset", None)]) for c in calls]}
+        bad = impl != "EXC" and impl != "-" and any(x.endswith(":0") for x in impl.split(";"))
+        if impl == "EXC" or bad:
+            ctx.nontriv("emit|" + ln)
+        if mo is None:
+            continue
+        model, _, dcls = mo.partition(" D=")
+        ctx.corr("emit")
+        if model != impl:
+            ctx.disagree("emit", dict(case, driver_line=ln), impl, model)
+        if len(ctx.samples) < 6 and (bad or impl == "EXC") and not any(isinstance(s, dict) and s.get("stream") == "emit" for s in ctx.samples):
+            ctx.sample({"stream": "emit", "lines": lines, "impl": impl, "model": model, "D": dcls})
+        # the model's theorem on this input: every call inside the file (D = '-') => no exception, all records well-formed
+        if dcls == "-" and (impl == "EXC" or bad):
+            ctx.candidate(case, "show_error calls with registered codes, positions inside the file and non-empty messages gave %s" % impl,
+                          cls=None, conforms=(model == impl), stream="emit")
+
+
+# =================================================================== annotation visitor stream
+def _ann_namespace():
+    import typing
+    try:
+        from typing_extensions import deprecated
+    except ImportError:  # pragma: no cover
+        from warnings import deprecated
+    mod = types.SimpleNamespace(NT=typing.NewType, TV=typing.TypeVar, x=3, C=int, List=typing.List)
+    return {"NT": typing.NewType, "TV": typing.TypeVar, "PS": typing.ParamSpec, "dep": deprecated, "int": int, "str": str,
+            "List": typing.List, "Optional": typing.Optional, "obj": 3, "mod": mod, "C": dict, "tuple": tuple}
+
+
+def gen_ann_src(rng, d=3):
+    """Source text of a random annotation expression over every ast expression kind."""
+    a = lambda: gen_ann_src(rng, d - 1)
+    leaf = lambda: rng.choice(["int", "str", "List", "Optional", "obj", "undef", "C", "tuple", "1", "'s'", "None", "...", "mod.x", "mod.C", "mod.zz", "NT", "TV"])
+    if d <= 0:
+        return leaf()
+    k = rng.choice(["leaf", "leaf", "sub", "sub", "sub2", "tuple", "list", "set", "dict", "bitor", "binop", "usub", "unary", "call", "ctor", "ctor", "attr",
+                    "starred", "slice", "lambda", "ifexp", "compare", "boolop", "fstring", "listcomp", "genexp", "dictcomp", "walrus", "await", "yield"])
+    if k == "leaf":
+        return leaf()
+    if k == "sub":
+        return "%s[%s]" % (rng.choice(["List", "Optional", "tuple", "C", "undef", a()]), a())
+    if k == "sub2":
+        return "%s[%s, %s]" % (rng.choice(["tuple", "C", "mod.List"]), a(), a())
+    if k == "tuple":
+        return "(%s, %s)" % (a(), a())
+    if k == "list":
+        return "[%s]" % ", ".join(a() for _ in range(rng.randint(0, 2)))
+    if k == "set":
+        return "{%s}" % ", ".join(a() for _ in range(rng.randint(1, 2)))
+    if k == "dict":
+        return "{%s: %s%s}" % (a(), a(), rng.choice(["", ", **%s" % a()]))
+    if k == "bitor":
+        return "(%s | %s)" % (a(), a())
+    if k == "binop":
+        return "(%s %s %s)" % (a(), rng.choice(["+", "-", "&", "@"]), a())
+    if k == "usub":
+        return "(-%s)" % a()
+    if k == "unary":
+        return "(%s%s)" % (rng.choice(["~", "not ", "+"]), a())
+    if k == "call":
+        f = rng.choice(["int", "obj", "undef", "C", "mod.C", "mod.x", "List", "(%s)" % a()])
+        return "%s(%s)" % (f, ", ".join([a() for _ in range(rng.randint(0, 2))] + (["k=%s" % a()] if rng.random() < 0.3 else [])))
+    if k == "ctor":
+        c = rng.choice(["NT", "TV", "PS", "dep", "mod.NT", "mod.TV"])
+        if c in ("NT", "mod.NT"):
+            return "%s('N', %s)" % (c, a())
+        if c in ("TV", "mod.TV"):
+            return "%s('T'%s%s)" % (c, rng.choice(["", ", " + a()]), rng.choice(["", ", bound=" + a(), ", covariant=" + a()]))
+        if c == "PS":
+            return "PS('P'%s)" % rng.choice(["", ", " + a(), ", bound=" + a()])
+        return "dep('m'%s%s)" % (rng.choice(["", ", " + a()]), rng.choice(["", "", ", category=" + a()]))
+    if k == "attr":
+        return "(%s).%s" % (a(), rng.choice(["x", "NT", "real", "zz"]))
+    if k == "starred":
+        return rng.choice(["(%s, *%s)", "tuple[%s, *%s]", "[%s, *%s]", "int(%s, *%s)"]) % (a(), a())
+    if k == "slice":
+        return "%s[%s:%s]" % (rng.choice(["tuple", "C", "obj"]), a(), rng.choice(["", a()]))
+    if k == "lambda":
+        return "(lambda: %s)" % a()
+    if k == "ifexp":
+        return "(%s if %s else %s)" % (a(), a(), a())
+    if k == "compare":
+        return "(%s < %s)" % (a(), a())
+    if k == "boolop":
+        return "(%s and %s)" % (a(), a())
+    if k == "fstring":
+        return "f'{int}'"
+    if k == "listcomp":
+        return "[%s for q in %s]" % (a(), a())
+    if k == "genexp":
+        return "(%s for q in %s)" % (a(), a())
+    if k == "dictcomp":
+        return "{%s: %s for q in %s}" % (a(), a(), a())
+    if k == "walrus":
+        return "(q := %s)" % a()
+    if k == "await":
+        return "(await %s)" % a()
+    return "(yield %s)" % a()
+
+
+def annot_stream(ctx, with_model=True):
+    from pyanalyze import annotations
+    ns = _ann_namespace()
+
+    class Ctx(annotations.Context):
+        def get_name(self, node):
+            return self.get_name_from_globals(node.id, ns)
+
+    rng = ctx.rng
+    fixed = ["tuple[int, *tuple[str, ...]]", "tuple[1:2]", "int | str", "int + tuple[1:2]", "~(lambda: 1)", "undef(*int)", "NT('N', *int)", "TV('T', bound=lambda: 1)",
+             "dep('m', *int, category=1)", "dep('m', *int)", "int(lambda: 1)", "{**int}", "{int: (yield)}", "mod.NT('N', (q := 1))", "(mod.x)(lambda: 1)", "-(lambda: 1)"]
+    srcs = fixed + [gen_ann_src(rng, rng.choice([1, 2, 2, 3])) for _ in range(ctx.n(600, 8000))]
+    cases = []
+    for s in srcs:
+        try:
+            body = ast.parse(s, mode="eval").body
+        except (SyntaxError, RecursionError, ValueError):
+            continue
+        try:
+            with contextlib.redirect_stderr(io.StringIO()):
+                annotations._Visitor(Ctx()).visit(body)
+            impl = "ok"
+        except NotImplementedError as e:
+            m = re.search(r"no visitor implemented for <ast\.(\w+) ", str(e))
+            impl = "raise:%s" % (m.group(1) if m else "?")
+        except Exception as e:
+            impl = "EXC:%s" % type(e).__name__
+        cases.append((s, aexpr_sexp(body, ns), impl))
+    outs = lean.run_driver("C12", ["A " + sx for _, sx, _ in cases]) if with_model and cases else [None] * len(cases)
+    for (s, sx, impl), mo in zip(cases, outs):
+        ctx.count(1, annot=1, **{"annot_" + impl.split(":")[0]: 1})
+        if impl != "ok":
+            ctx.nontriv("annot|" + s)
+        case = {"stream": "annot", "annotation": s, "aexpr": sx}
+        model = cls = None
+        if mo is not None:
+            m = re.match(r"res=(\S+) D=(\S+)$", mo)
+            model, cls = (m.group(1), m.group(2)) if m else (mo, "-")
+            if not impl.startswith("EXC"):
+                ctx.corr("annot")
+                if model != impl:
+                    ctx.disagree("annot", case, impl, model)
+            else:
+                ctx.tag("annot_other_exception")   # e.g. NewType(...) / TypeVar(...) called with unfit arguments: outside the model
+            if len([x for x in ctx.samples if isinstance(x, dict) and x.get("stream") == "annot"]) < 1 and impl.startswith("raise"):
+                ctx.sample(dict(case, impl=impl, model=model, D=cls))
+        if impl.startswith("raise"):
+            ctx.candidate(case, "annotations._Visitor raised: %s" % impl, cls=cls if cls not in (None, "-") else None,
+                          conforms=(model is None or model == impl), stream="annot")
+        elif impl.startswith("EXC"):
+            ctor = any(isinstance(c, ast.Call) and _ctor_of(c.func, ns) != "-" for c in ast.walk(ast.parse(s, mode="eval")))
+            ctx.candidate(case, "annotations._Visitor raised: %s" % impl, cls="annotCtorCall" if ctor else None, conforms=True, stream="annot")
+
+
+# =================================================================== (2) value API
+def tw(t):
+    k = t[0]
+    if k in ("generic", "seq"):
+        return 2 + sum(tw(x) for x in t[2])
+    if k == "many":
+        return 1 + tw(t[1])
+    if k == "union":
+        return 1 + sum(tw(x) for x in t[1])
+    if k == "annotated":
+        return tw(t[1])
+    return 2
+
+
+def tdepth(t):
+    k = t[0]
+    if k in ("generic", "seq"):
+        return 1 + max([tdepth(x) for x in t[2]] or [0])
+    if k == "union":
+        return 1 + max([tdepth(x) for x in t[1]] or [0])
+    if k in ("many", "annotated"):
+        return 1 + tdepth(t[1])
+    return 1
+
+
+def tsize(t):
+    k = t[0]
+    if k in ("generic", "seq"):
+        return 1 + sum(tsize(x) for x in t[2])
+    if k == "union":
+        return 1 + sum(tsize(x) for x in t[1])
+    if k in ("many", "annotated"):
+        return 1 + tsize(t[1])
+    return 1
+
+
+def ext_values(rng):
+    """Values of classes outside the Lean term language, built directly."""
+    from pyanalyze.signature import ParameterKind, SigParameter, Signature, ANY_SIGNATURE
+    from pyanalyze import value as PV
+    from harness.common import values as V
+    leaf = [PV.TypedValue(int), PV.TypedValue(str), PV.KnownValue(1), PV.KnownValue(None), PV.AnyValue(PV.AnySource.explicit),
+            PV.TypeVarValue(V.TYPEVARS[0]), PV.GenericValue(list, [PV.TypedValue(int)]), PV.NO_RETURN_VALUE,
+            PV.MultiValuedValue([PV.TypedValue(int), PV.KnownValue(None)])]
+    k = rng.choice(["typeddict", "typeddict", "dictinc", "callable", "callable_any", "subclass_exact", "subclass_tv", "annotated_ext", "tvar_bound",
+                    "unbound_method", "kvunion", "seq_set", "literal_only"])
+    L = lambda: rng.choice(leaf)
+    if k == "typeddict":
+        items = {key: PV.TypedDictEntry(L(), required=rng.random() < 0.7, readonly=rng.random() < 0.2) for key in rng.sample(["a", "b", "c"], rng.randint(0, 3))}
+        return k, PV.TypedDictValue(items, extra_keys=L()) if rng.random() < 0.3 else PV.TypedDictValue(items)
+    if k == "dictinc":
+        return k, PV.DictIncompleteValue(dict, [PV.KVPair(L(), L(), is_many=rng.random() < 0.3, is_required=rng.random() < 0.8) for _ in range(rng.randint(0, 3))])
+    if k == "callable":
+        ps = [SigParameter("p%d" % i, rng.choice([ParameterKind.POSITIONAL_ONLY, ParameterKind.POSITIONAL_OR_KEYWORD, ParameterKind.KEYWORD_ONLY]), annotation=L())
+              for i in range(rng.randint(0, 3))]
+        ps.sort(key=lambda p: p.kind.value)
+        return k, PV.CallableValue(Signature.make(ps, L()))
+    if k == "callable_any":
+        return k, PV.CallableValue(ANY_SIGNATURE)
+    if k == "subclass_exact":
+        return k, PV.SubclassValue(PV.TypedValue(rng.choice([int, str, list, object])), exactly=True)
+    if k == "subclass_tv":
+        return k, PV.SubclassValue(PV.TypeVarValue(V.TYPEVARS[1]))
+    if k == "annotated_ext":
+        return k, PV.AnnotatedValue(L(), [PV.KnownValue("m"), PV.KnownValue(2)])
+    if k == "tvar_bound":
+        return k, PV.TypeVarValue(V.TYPEVARS[2], bound=L()) if rng.random() < 0.5 else PV.TypeVarValue(V.TYPEVARS[2], constraints=(PV.TypedValue(int), PV.TypedValue(str)))
+    if k == "unbound_method":
+        from pyanalyze.stacked_scopes import Composite
+        return k, PV.UnboundMethodValue("append", Composite(PV.TypedValue(list)))
+    if k == "kvunion":
+        return k, PV.MultiValuedValue([PV.TypedDictValue({"a": PV.TypedDictEntry(L())}), PV.DictIncompleteValue(dict, [PV.KVPair(PV.KnownValue("a"), L())])])
+    if k == "seq_set":
+        return k, PV.SequenceValue(rng.choice([set, list, tuple]), [(rng.random() < 0.3, L()) for _ in range(rng.randint(0, 3))])
+    return k, PV.TypedValue(str, literal_only=True)
+
+
+VALUE_OPS = ["can_assign", "can_assign_exclude_any", "is_assignable", "can_overlap_IS", "can_overlap_MATCH", "can_overlap_EQ", "unite_values",
+             "unite_and_simplify", "substitute_typevars", "simplify", "get_type_value", "str", "hash", "eq"]
+
+
+def value_ops(checker, va, vb, vc, tvmap):
+    """Every public operation of the property on concrete Values; returns {op: result or 'EXC:…'}."""
+    from pyanalyze import value as PV
+    out = {}
+
+    def run(name, f):
+        try:
+            out[name] = f()
+        except Exception as e:
+            out[name] = "EXC:%s: %s @%s" % (type(e).__name__, str(e)[:80], traceback.extract_tb(e.__traceback__)[-1].name)
+
+    run("can_assign", lambda: va.can_assign(vb, checker))
+
+    def excl():
+        with checker.set_exclude_any():
+            return va.can_assign(vb, checker)
+    run("can_assign_exclude_any", excl)
+    run("is_assignable", lambda: va.is_assignable(vb, checker))
+    for mode in PV.OverlapMode:
+        run("can_overlap_" + mode.name, lambda mode=mode: va.can_overlap(vb, checker, mode))
+    run("unite_values", lambda: PV.unite_values(va, vb, vc))
+    run("unite_and_simplify", lambda: PV.unite_and_simplify(va, vb, vc, limit=2))
+    run("substitute_typevars", lambda: va.substitute_typevars(tvmap))
+    run("simplify", lambda: va.simplify())
+    run("get_type_value", lambda: va.get_type_value())
+    run("str", lambda: str(va))
+    run("hash", lambda: hash(va))
+    run("eq", lambda: va == vb)
+    return out
+
+
+def gen_value_terms(ctx):
+    from harness.common import gen_values as G
+    from harness.props.c14 import plant, near
+    rng, depth = ctx.rng, ctx.n(2, 3)
+    out = []
+    for _ in range(ctx.n(900, 12000)):
+        a = G.gen_ty(rng, depth, allow_any=rng.random() < 0.3)
+        if rng.random() < 0.1:
+            a = ("known", G.gen_obj(rng, 2))
+        b = near(rng, a, depth) if rng.random() < 0.6 else G.gen_ty(rng, depth, allow_any=rng.random() < 0.3)
+        c = G.gen_ty(rng, rng.choice([1, depth]), allow_any=rng.random() < 0.2)
+        if rng.random() < 0.35:
+            a = plant(rng, a)
+        if rng.random() < 0.2:
+            b = plant(rng, b)
+        a, b, c = G.norm_term(a), G.norm_term(b), G.norm_term(c)
+        if "many" in (a[0], b[0], c[0]):
+            continue
+        out.append((a, b, c))
+    return out
+
+
+def corpus_entries():
+    path = os.path.join(lean.HERE, "corpus", "C12.jsonl")
+    out = []
+    if os.path.exists(path):
+        for l in open(path):
+            if l.strip():
+                out.append(json.loads(l))
+    return out
+
+
+def value_stream(ctx, with_model=True, triples=None):
+    from pyanalyze import value as PV
+    from harness.common import values as V, gen_values as G
+    from harness.props.c03 import subterms, totuple
+    from harness.props.c04 import unmodelled, proto_set
+    checker = pya.make_checker()
+    rng = ctx.rng
+    if triples is None:
+        triples = [tuple(totuple(x) for x in e["ops"]) for e in corpus_entries() if e.get("stream") == "value"] + gen_value_terms(ctx)
+    P = proto_set()
+    jobs, lines = [], []
+    for a, b, c in triples:
+        m = {0: G.norm_term(G.gen_ty(rng, 1)), 1: G.norm_term(G.gen_ty(rng, 1, allow_any=True))}
+        if any(v[0] == "many" for v in m.values()):
+            m = {0: ("typed", G.INT), 1: ("any",)}
+        sa, sb, sc = V.ty_sexp(a), V.ty_sexp(b), V.ty_sexp(c)
+        msexp = "(" + " ".join("(%d %s)" % (i, V.ty_sexp(v)) for i, v in m.items()) + ")"
+        jobs.append((a, b, c, m, msexp))
+        lines += ["ca 0 %s %s" % (sa, sb), "ca 1 %s %s" % (sa, sb), "unite %s %s %s" % (sa, sb, sc), "ubound %s %s %s" % (sa, sb, sc),
+                  "subst %s %s" % (msexp, sa), "sbound %s %s" % (msexp, sa), "beq %s %s" % (sa, sb), "meas %s" % sa]
+    outs = lean.run_driver("C12", lines) if with_model and lines else None
+    closed = lambda t: not any(s[0] == "tvar" for s in subterms(t))
+
+    def dec(v):
+        try:
+            return V.ty_sexp(V.value_to_ty(v))
+        except V.Unencodable:
+            return None
+
+    for i, (a, b, c, m, msexp) in enumerate(jobs):
+        case = {"stream": "value", "a": V.ty_sexp(a), "b": V.ty_sexp(b), "c": V.ty_sexp(c), "tvmap": msexp, "ops": [a, b, c]}
+        ctx.count(1, value=1, **{"value_a_" + a[0]: 1})
+        if any(t[0] in ("union", "generic", "seq", "annotated") for t in (a, b, c)):
+            ctx.nontriv("value|%s|%s|%s" % (case["a"], case["b"], case["c"]))
+        try:
+            va, vb, vc = V.ty_to_value(a), V.ty_to_value(b), V.ty_to_value(c)
+            tvmap = {V.TYPEVARS[k]: V.ty_to_value(v) for k, v in m.items()}
+        except Exception as e:
+            ctx.candidate(case, "building the values raised %r" % (e,), cls=None, conforms=True, stream="value")
+            continue
+        res = value_ops(checker, va, vb, vc, tvmap)
+        conforms = True
+        for op, r in res.items():
+            if isinstance(r, str) and r.startswith("EXC:"):
+                ctx.candidate(dict(case, op=op), "%s raised: %s" % (op, r[4:]), cls=None, conforms=True, stream="value")
+        if i % 211 == 0:
+            ctx.sample({"stream": "value", "a": case["a"], "b": case["b"], "results": {k: (str(v)[:60]) for k, v in list(res.items())[:4]}})
+        if outs is None:
+            continue
+        m_ca0, m_ca1, m_unite, m_ub, m_subst, m_sb, m_beq, m_meas = outs[8 * i:8 * i + 8]
+        okv = lambda r: not (isinstance(r, str) and r.startswith("EXC:"))
+        # protocol checks are cached per Checker across modes (finding C10.protoCacheMode), so their verdicts depend on what this
+        # stream called before; C04 compares them with fresh checkers, here pairs mentioning a protocol class are left out
+        has_proto = any(s_[0] in ("typed", "generic", "seq") and s_[1] in P for t in (a, b) for s_ in subterms(t))
+        if has_proto:
+            ctx.tag("value_ca_protocol_skipped")
+        if closed(a) and closed(b) and not unmodelled(a, b) and not has_proto:
+            if okv(res["can_assign"]):
+                ctx.corr("value-ca")
+                iv = "0" if isinstance(res["can_assign"], PV.CanAssignError) else "1"
+                if iv != m_ca0:
+                    ctx.disagree("value-ca", case, iv, m_ca0)
+            if okv(res["can_assign_exclude_any"]) and not any(s[0] in ("typed", "generic") and s[1] in P for s in subterms(a)):
+                ctx.corr("value-ca-exclude-any")
+                iv = "0" if isinstance(res["can_assign_exclude_any"], PV.CanAssignError) else "1"
+                if iv != m_ca1:
+                    ctx.disagree("value-ca-exclude-any", case, iv, m_ca1)
+        # hash((bytes, b"")) == hash((bytes, False)): a zero-hash literal collides with the TypedValue of its class, which the
+        # structural hash model (no accidental collisions) cannot see
+        zero = {(G.INT, ("int", 0)), (G.BOOL, ("bool", 0)), (G.STR, ("str", "")), (G.BYTES, ("bytes", ""))}
+        subs = [s_ for t in (a, b, c) + tuple(m.values()) for s_ in subterms(t)]
+        collide = any(("typed", k) in subs and ("known", lit) in subs for k, lit in zero)
+        if collide:
+            ctx.tag("value_hash_collision_risk")
+        if okv(res["unite_values"]):
+            d = dec(res["unite_values"]) if not collide else None
+            if d is not None:
+                ctx.corr("value-unite")
+                if d != m_unite:
+                    ctx.disagree("value-unite", case, d, m_unite)
+            # the bound theorems, evaluated on the real objects
+            u = res["unite_values"]
+            members = [] if u is PV.NO_RETURN_VALUE else list(u.vals) if isinstance(u, PV.MultiValuedValue) else None
+            flat = [x for v in (va, vb, vc) for x in PV.flatten_values(v)]
+            if members is not None and len(members) != 1:
+                ctx.tag("bound_unite_members")
+                if len(members) > len(flat) or not all(any(x == y for y in flat) for x in members):
+                    ctx.candidate(dict(case, law="unite-members"), "unite_values produced a member that is not a flattened operand, or more members than operands",
+                                  cls=None, conforms=(d == m_unite), stream="value")
+            nums = m_ub.split()
+            if len(nums) == 5 and (int(nums[0]) > int(nums[1]) or int(nums[2]) > int(nums[3]) or nums[4] != "1"):
+                ctx.disagree("value-bounds", case, "theorem statement", "ubound=%s" % m_ub)
+        if okv(res["substitute_typevars"]):
+            d = dec(res["substitute_typevars"])
+            if d is not None and not collide:
+                ctx.corr("value-subst")
+                if d != m_subst:
+                    ctx.disagree("value-subst", case, d, m_subst)
+                try:
+                    rt = V.value_to_ty(res["substitute_typevars"])
+                    bound = max([tw(v) for v in m.values()] + [1])
+                    dbound = max([tdepth(v) for v in m.values()] + [0])
+                    ctx.tag("bound_subst")
+                    if tw(rt) > tw(a) * bound or tdepth(rt) > tdepth(a) + dbound:
+                        ctx.candidate(dict(case, law="subst-bound"), "substitute_typevars result exceeds the weight / depth bound",
+                                      cls=None, conforms=(d == m_subst), stream="value")
+                except V.Unencodable:
+                    pass
+            nums = m_sb.split()
+            if len(nums) == 5 and (int(nums[0]) > int(nums[1]) or int(nums[2]) > int(nums[3]) or nums[4] != "1"):
+                ctx.disagree("value-bounds", case, "theorem statement", "sbound=%s" % m_sb)
+        if okv(res["eq"]) and not collide:
+            ctx.corr("value-eq")
+            if ("1" if res["eq"] is True else "0") != m_beq:
+                ctx.disagree("value-eq", case, res["eq"], m_beq)
+        ctx.corr("value-meas")
+        if m_meas != "%d %d %d" % (tsize(a), tw(a), tdepth(a)):
+            ctx.disagree("value-meas", case, "%d %d %d" % (tsize(a), tw(a), tdepth(a)), m_meas)
+    # values outside the Lean term language: implementation only
+    for _ in range(ctx.n(500, 6000)):
+        ka, va = ext_values(rng)
+        kb, vb = ext_values(rng) if rng.random() < 0.6 else (ka, va)
+        kc, vc = ext_values(rng)
+        if rng.random() < 0.4:
+            t = G.norm_term(G.gen_ty(rng, 2, allow_any=True))
+            if t[0] != "many":
+                kb, vb = "term", V.ty_to_value(t)
+        if rng.random() < 0.3:
+            va, vb, ka, kb = vb, va, kb, ka
+        ctx.count(1, value_ext=1, **{"ext_" + ka: 1})
+        ctx.nontriv("ext|%s|%s|%s" % (va, vb, vc))
+        tvmap = {V.TYPEVARS[0]: vc, V.TYPEVARS[1]: PV.TypedValue(int), V.TYPEVARS[2]: vb}
+        res = value_ops(checker, va, vb, vc, tvmap)
+        for op, r in res.items():
+            if isinstance(r, str) and r.startswith("EXC:"):
+                what = "%s raised: %s" % (op, r[4:])
+                ctx.candidate({"stream": "value-ext", "a": "%s: %s" % (ka, _safe_str(va)), "b": "%s: %s" % (kb, _safe_str(vb)), "c": _safe_str(vc), "op": op},
+                              what, cls=ext_class(op, r, va, vb, vc), conforms=True, stream="value-ext")
+
+
+def _safe_str(v):
+    try:
+        return str(v)[:200]
+    except Exception as e:
+        return "<%s: str() raised %s>" % (type(v).__name__, type(e).__name__)
+
+
+def ext_class(op, r, va, vb, vc):
+    """Known classes of the value-API half (syntactic: the classes of the operands and the operation)."""
+    return None
+
+
+# =================================================================== program stream
+FIXED_PROGRAMS = [
+    # generic probes (the minimised witness of every finding class lives in corpus/C12.jsonl); always run first, under all 4 configurations
+    'x = 1\ny = x.foo\nz = undefined_name\n',
+    '',
+    '# static analysis: ignore\nx = undefined\n',
+    'x = undefined  # static analysis: ignore\n# static analysis: ignore\ny = 1\n',
+    'def f(a, b=1, *c, d, **e):\n    return f(1, 2, 3, d=4, x=5), f(), f(*a, **b)\n',
+]
+
+CONFIGS = ["all-on", "default", "all-off", "random"]
+CPU_LIMIT = 10
+
+
+def program_cases(ctx):
+    rng = ctx.rng
+    for src in FIXED_PROGRAMS + [e["src"] for e in corpus_entries() if e.get("stream") == "prog"]:
+        yield src, {"fixed"}, False
+    n, made = ctx.n(220, 2200), 0
+    while made < n:
+        hostile = rng.random() < 0.12
+        g = c12_gen.ProgGen(rng, hostile=hostile)
+        yield g.module(), g.feat, hostile
+        made += 1
+
+
+def prog_stream(ctx, with_model=True):
+    rng = ctx.rng
+    emit_jobs = []
+    new_budget = [3]
+    seen_new = set()
+    nprog = [0]
+    t_start = time.time()
+    for src, feat, hostile in program_cases(ctx):
+        why = importable(src)
+        if why is not None:
+            ctx.tag("prog_discarded_" + why.split(":")[0])
+            continue
+        ctx.nontriv("prog|" + src)
+        for f in feat:
+            ctx.tag("feat_" + f)
+        nprog[0] += 1
+        for ci, cname in enumerate(["all-on", CONFIGS[1 + nprog[0] % 3]] if "fixed" not in feat else CONFIGS):
+            settings = config_settings(cname, rng)
+            try:
+                r = run_check(src, settings, record=(ci == 0), cpu=CPU_LIMIT)
+            except Exception as e:   # the harness's own import of the module failed the second time round
+                ctx.tag("prog_harness_error")
+                ctx.notes.append("prog stream: %r" % (e,))
+                continue
+            ctx.count(1, prog=1, **{"config_" + cname: 1})
+            ctx.tag("diagnostics", len(r["failures"]))
+            if ci == 0 and r["raw"] is not None and not any(k in ("raises", "timeout") for k, _, _ in r["problems"]):
+                emit_jobs.append((src, r))
+            for kind, sig, det in r["problems"]:
+                cls, conforms, aux = classify(src, kind, sig, det, settings)
+                det = {k: v for k, v in det.items() if k != "description"}
+                case = {"stream": "prog", "config": cname, "kind": kind, "signature": list(sig), "at": det, "src": src}
+                if cname == "random":
+                    case["enabled"] = sorted(c.name for c, on in settings.items() if on)
+                ctx.tag("problem_%s" % (cls or "NEW"))
+                if cls is None:
+                    key = (kind, sig)
+                    if key not in seen_new and new_budget[0] > 0:
+                        seen_new.add(key)
+                        new_budget[0] -= 1
+                        small = shrink(src, fails_with(sig, settings), max_seconds=ctx.n(25, 90))
+                        case = dict(case, src=small, original=src)
+                what = {"internal_error": "internal_error diagnostic: %s" % det.get("tail", ""), "raises": "check() raised %s" % det.get("exception", ""),
+                        "timeout": "check() did not return within %s CPU seconds" % sig[1], "no-code": "diagnostic without a registered error code",
+                        "bad-line": "diagnostic with a line number outside the file", "bad-col": "diagnostic with a column outside its line",
+                        "empty-message": "diagnostic with an empty message"}.get(kind, kind)
+                ctx.candidate(case, what, cls=cls, conforms=conforms, stream="prog")
+            if any(k == "timeout" for k, _, _ in r["problems"]):
+                break      # do not spend another CPU limit on the same program
+        if len(ctx.samples) < 5 and "fixed" not in feat and not any(isinstance(s, dict) and s.get("stream") == "prog" for s in ctx.samples):
+            ctx.sample({"stream": "prog", "src": src[:1500], "features": sorted(feat)[:25]})
+    ctx.extra["prog_stream_s"] = round(time.time() - t_start, 1)
+    if with_model:
+        emit_e2e(ctx, emit_jobs)
+
+
+def emit_e2e(ctx, jobs):
+    """The raw show_error stream recorded on the fuzzer's programs -> Lean emit model -> same failure list?"""
+    lines_out, kept = [], []
+    for src, r in jobs:
+        toks = encode_calls(r["raw"])
+        lines = src.splitlines()
+        if toks is None or not src.isascii():
+            ctx.tag("emit_e2e_skipped")
+            continue
+        fname = r["failures"][0]["filename"] if r["failures"] else "m"
+        if " " in fname or "|" in fname:
+            continue
+        lines_out.append(emit_line(fname, [], lines, toks))
+        kept.append((src, impl_failures(r["failures"], lines)))
+    if not lines_out:
+        return
+    outs = lean.run_driver("C12", lines_out)
+    for (src, impl), mo, ln in zip(kept, outs, lines_out):
+        model = mo.partition(" D=")[0]
+        ctx.corr("emit-e2e")
+        if model != impl:
+            # first differing record, to keep the report readable
+            a, b = impl.split(";"), model.split(";")
+            k = next((i for i in range(min(len(a), len(b))) if a[i] != b[i]), min(len(a), len(b)))
+            ctx.disagree("emit-e2e", {"stream": "emit-e2e", "src": src, "first_difference_at": k}, ";".join(a[k:k + 2]), ";".join(b[k:k + 2]))
+
+
+# =================================================================== entry points
+ANCHORS = [
+    ("pyanalyze/name_check_visitor.py", "NameCheckVisitor.visit"),
+    ("pyanalyze/name_check_visitor.py", "NameCheckVisitor.check"),
+    ("pyanalyze/node_visitor.py", "BaseNodeVisitor.show_error"),
+    ("pyanalyze/node_visitor.py", "BaseNodeVisitor.show_errors_for_unused_ignores"),
+    ("pyanalyze/node_visitor.py", "BaseNodeVisitor.show_errors_for_bare_ignores"),
+    ("pyanalyze/annotations.py", "_Visitor"),
+    ("pyanalyze/annotations.py", "_eval_forward_ref"),
+    ("pyanalyze/annotations.py", "value_from_ast"),
+    ("pyanalyze/value.py", "unite_values"),
+    ("pyanalyze/value.py", "flatten_values"),
+    ("pyanalyze/value.py", "MultiValuedValue.substitute_typevars"),
+    ("pyanalyze/value.py", "GenericValue.substitute_typevars"),
+    ("pyanalyze/value.py", "SequenceValue.substitute_typevars"),
+    ("pyanalyze/value.py", "TypeVarValue.substitute_typevars"),
+    ("pyanalyze/value.py", "Value.can_assign"),
+]
+RULE = (
+    "EXPLORATION (searched, not proved) — programs: a fixed list of probes and minimised findings, then seeded random modules from a "
+    "grammar covering wrong arities, bad operands, undefined names, odd / quoted / forward-reference annotations, decorators, classes "
+    "(__init__, properties, inheritance, dataclass, Enum, TypedDict, NamedTuple, Protocol, Generic, ABC, slots, dunder methods), "
+    "comprehensions, lambdas, star-expressions, f-strings, walrus, match, async def / await / async for / async with, try / finally / "
+    "except*, global / nonlocal, %-format and str.format, overloads, 12 % with module-level objects whose dunder methods raise; only "
+    "modules that compile and import are counted; each with every code on plus one of {harness default, every code off, a random "
+    "subset} in rotation (the fixed probes under all four). PROVED + CORRESPONDENCE — emit: all-kinds random files of <= 6 lines x <= 5 show_error calls (None / position-less / "
+    "out-of-file nodes, missing code, empty message, duplicates, obey_ignore / save off); annot: random annotation expressions of depth "
+    "<= 3 over every ast expression kind; value: triples of shared-generator value terms (depth <= 2 quick / 3 thorough, TypeVars "
+    "planted in a third, b near a in 60 %) plus directly built TypedDict / DictIncomplete / Callable / exact type[...] / bounded TypeVar / "
+    "unbound-method values. non-trivial = an importable program, an annotation that raises, a call list that raises or yields an "
+    "ill-formed record, a value triple with a compound operand; distinct by text"
+)
+ASSUMPTIONS = [
+    "whole-program crash-freedom is SEARCHED by the grammar fuzzer, not proved: there is no Lean model of name_check_visitor.py; its "
+    "known classes are failure signatures (exception type + innermost pyanalyze frame) plus a syntactic predicate on the reported node, "
+    "computed in Python (only unsupportedAnnotNode has its predicate in Lean)",
+    "termination is judged by a CPU-time limit (10 s per check of a <= 150-line module; typical: 0.05 s)",
+    "columns are compared in UTF-8 bytes for AST nodes (the unit of ast.col_offset); the emit model counts characters, so its "
+    "well-formedness verdict is compared on ASCII files only",
+    "the emit model takes the sequence of show_error calls as input (which calls the 6 000-line visitor makes is not modelled); the "
+    "hypothesis 'positions lie inside the file' of emit_wellformed is what ast.parse guarantees for real nodes — except for nodes of a "
+    "parsed string annotation, whose positions are relative to the string (finding stringAnnotationPosition)",
+    "the value-API theorems are structural bounds on the Lean models ca / unite / subst (total by construction); values outside the Lean "
+    "term language are only fuzzed on the implementation",
+]
+TRUSTED = [
+    "harness/props/c12_gen.py (the program grammar) and the shrinker; Python-side class predicates of the program search",
+    "Core/Emit.lean primitives shared with C11 (ignore-comment matching), validated by C11's and this check's emit streams",
+]
+
+
+def run(ctx):
+    annot_stream(ctx)
+    emit_unit_stream(ctx)
+    value_stream(ctx)
+    prog_stream(ctx)
+
+
+def run_impl_only(ctx):
+    annot_stream(ctx, with_model=False)
+    emit_unit_stream(ctx, with_model=False)
+    value_stream(ctx, with_model=False)
+    prog_stream(ctx, with_model=False)
+
+
+def replay(ctx, data):
+    from harness.props.c03 import totuple
+    case = data.get("case", {})
+    stream = case.get("stream") or data.get("stream")
+    if stream == "prog":
+        src = case["src"]
+        why = importable(src)
+        if why is not None:
+            print("the replayed module is outside the property's domain: %s" % why)
+            return 0
+        st = config_settings("all-on")
+        if case.get("enabled") is not None:
+            st = {c: c.name in case["enabled"] for c in ErrorCode}
+        elif case.get("config") in ("default", "all-off"):
+            st = config_settings(case["config"])
+        r = run_check(src, st, fresh=True)
+        for kind, sig, det in r["problems"]:
+            cls, conforms, _ = classify(src, kind, sig, det, st)
+            det = {k: v for k, v in det.items() if k != "description"}
+            ctx.candidate({"stream": "prog", "kind": kind, "signature": list(sig), "at": det, "src": src}, kind, cls=cls, conforms=conforms)
+    elif stream == "value":
+        value_stream(ctx, triples=[tuple(totuple(x) for x in case["ops"])])
+    elif stream == "annot":
+        ctx.rng = random.Random(0)
+        from pyanalyze import annotations
+        body = ast.parse(case["annotation"], mode="eval").body
+        ns = _ann_namespace()
+
+        class Ctx(annotations.Context):
+            def get_name(self, node):
+                return self.get_name_from_globals(node.id, ns)
+        try:
+            annotations._Visitor(Ctx()).visit(body)
+            impl = "ok"
+        except Exception as e:
+            impl = "%s: %s" % (type(e).__name__, e)
+        model = lean.run_driver("C12", ["A " + aexpr_sexp(body, ns)])[0]
+        print(json.dumps({"annotation": case["annotation"], "implementation": impl, "model": model}, indent=1))
+        return 0 if impl == "ok" else 1
+    elif stream == "emit":
+        lines, off = case["lines"], case["off"]
+        calls = [dict(c, node=None if c["node"] is None else _Node(*c["node"])) for c in case["calls"]]
+        impl, rec = run_unit_case(lines, off, calls)
+        model = lean.run_driver("C12", [emit_line("unit.py", off, lines, encode_calls(rec))])[0]
+        print(json.dumps({"implementation": impl, "model": model}, indent=1))
+        return 1
+    else:
+        print("nothing to replay in %s" % json.dumps(data)[:300])
+        return 0
+    print(json.dumps({"candidates": [dict(c, case={k: v for k, v in c["case"].items() if k != "original"}) for c in ctx.candidates[:5]],
+                      "broken": ctx.broken[:3]}, indent=1, default=str))
+    known = {e["class"] for e in __import__("harness.main", fromlist=["load_known"]).load_known(PROP)}
+    return 1 if (ctx.broken or any(c["class"] not in known for c in ctx.candidates)) else 0
